@@ -369,10 +369,13 @@ func (c *Chain[K, E]) WriteChain(store *stor.Stor) (uint64, Chain[K, E]) {
 	}
 	off := c.Write(store, prevOff, lastMod)
 	if off == 0 {
-		if no > 0 {
-			off = c.Offs[no-1] // nothing written, return current chain
+		if merge == no {
+			// flattened and there are no live items left,
+			// so the chain is now empty (otherwise the old chunks
+			// would bring back the deleted items when read)
+			return 0, Chain[K, E]{Hamt: c.Hamt, Clock: c.Clock}
 		}
-		return off, *c
+		return c.Offs[no-1], *c // nothing written, return current chain
 	}
 	n := no - merge
 	c2 := Chain[K, E]{
